@@ -30,6 +30,9 @@ pub enum Error {
     InvalidInteger,
     InvalidFloat,
     ExpectBinOpToken,
+    DivideByZero,
+    NumberOverflow,
+    InvalidShiftCount,
 }
 
 #[cfg(not(tarpaulin_include))]
@@ -67,6 +70,9 @@ impl fmt::Display for Error {
             InvalidInteger => write!(f, "invalid integer"),
             InvalidFloat => write!(f, "invalid float"),
             ExpectBinOpToken => write!(f, "expect bin op token"),
+            DivideByZero => write!(f, "divide by zero"),
+            NumberOverflow => write!(f, "number overflow"),
+            InvalidShiftCount => write!(f, "invalid shift count"),
         }
     }
 }
